@@ -146,7 +146,7 @@ theorem sopk_ok (n : String) (ft op w : Nat) : DGood (QN ft) (decodeSOPK (blank 
   split
   · rename_i d hd
     have zd := z02_getOperand hd
-    simp [DGood, OGood, QN, AllO, blank]; fin02
+    split <;> simp [DGood, OGood, QN, AllO, blank] <;> fin02
   · trivial
 
 theorem sopp_ok (n : String) (ft op w : Nat) : DGood (QN ft) (decodeSOPP (blank n ft op) w) := by
